@@ -1,6 +1,7 @@
 import VelaVerif.Model.TfliteText
 import VelaVerif.Model.TfliteWriter
 import VelaVerif.Model.TfliteReader
+import VelaVerif.Spec.TfliteFile
 import VelaVerif.Handlers.Util
 /-!
 Requests of the TFLite writer / reader models (syntax: Model/TfliteText.lean).
@@ -14,6 +15,9 @@ Requests of the TFLite writer / reader models (syntax: Model/TfliteText.lean).
                           blanking, on both sides, what the reader model does not claim: option payloads, `input_tensors`, the
                           data of reshaped clones (length kept), the version string; `same <tensors> <operators>` | `differ …` | `err:<kind>`
 `wreaderr <kind> <model>` the real reader raised <kind>: `same` / `differ model=…`
+`wspec <desc> <model>`    Spec.conforms: does the walked file say what the graph says? `ok` | `bad <n> <kind>|<detail> ~ …`
+`wreadspec <desc>`        Spec.readOk on the description of what the real reader built
+`wmeta <version> <model> <model>`   Spec.metadataKept source file / written file
 -/
 namespace VelaVerif.Handlers.Tflite
 open VelaVerif VelaVerif.Tflite
@@ -29,6 +33,10 @@ def normRead (d : Desc) : Desc :=
     version := [],
     tensors := d.tensors.map fun t => if t.src.isSome then { t with values := t.values.map fun v => Data.digest v.len "clone" } else t,
     subgraphs := d.subgraphs.map fun s => { s with inputTensors := [], ops := s.ops.map fun o => { o with payload := blankPayload } } }
+
+def showProblems (l : List Spec.Problem) : String :=
+  if l.isEmpty then "ok" else
+  s!"bad {l.length} " ++ " ~ ".intercalate ((l.take 8).map fun p => p.kind ++ "|" ++ ((p.detail.replace " " "_").take 120).toString)
 
 def handle : List String → Option String
   | "wwrite" :: toks =>
@@ -88,6 +96,28 @@ def handle : List String → Option String
         | .error e => if e == kind then some "same" else some s!"differ model=err:{e} real=err:{kind}"
         | .ok _ => some s!"differ model=ok real=err:{kind}"
       | none => some "err:bad-model"
+    | _ => some "err:bad-request"
+  | "wspec" :: toks =>
+    match Sx.parseAll toks with
+    | some [dx, tx] =>
+      match decDesc dx, decModelT tx with
+      | some d, some t => some (showProblems (Spec.conforms d t))
+      | none, _ => some "err:bad-desc"
+      | _, none => some "err:bad-model"
+    | _ => some "err:bad-request"
+  | "wreadspec" :: toks =>
+    match Sx.parseAll toks with
+    | some [dx] =>
+      match decDesc dx with
+      | some d => some (showProblems (Spec.readOk d))
+      | none => some "err:bad-desc"
+    | _ => some "err:bad-request"
+  | "wmeta" :: toks =>
+    match Sx.parseAll toks with
+    | some [vx, ax, bx] =>
+      match decBytes vx, decModelT ax, decModelT bx with
+      | some v, some a, some b => some (showProblems (Spec.metadataKept v a b))
+      | _, _, _ => some "err:bad-model"
     | _ => some "err:bad-request"
   | "wsame" :: toks =>
     match Sx.parseAll toks with
